@@ -5,7 +5,7 @@
    invariant is evaluated by the worker that expands its parent).  With
    EXPORT = TRUE every (x, Encode(x)) is printed as a test vector for the harness
    (direction A). *)
-EXTENDS VarInt, TLC
+EXTENDS IntClasses
 CONSTANTS NBlocks, EXPORT      \* NBlocks: multiple of 16
 VARIABLES lvl, idx
 vars == <<lvl, idx>>
@@ -19,6 +19,6 @@ Next == Root \/ Group
 BSeq == SetToSeq(Boundaries)
 Xs == CASE lvl = 0 -> BSeq [] lvl = 1 -> <<>> [] lvl = 2 -> [i \in 1..1024 |-> Lo(idx) + i - 1]
 Inv == LET xs == Xs IN        \* evaluated once per state
-       /\ \A i \in 1..Len(xs) : IntLaws(xs[i])
+       /\ \A i \in 1..Len(xs) : IntLaws(xs[i]) /\ ClassAgrees(xs[i])
        /\ (EXPORT /\ xs # <<>>) => PrintT("@I " \o ToString([i \in 1..Len(xs) |-> <<xs[i], Encode(xs[i])>>]))
 =============================================================================
